@@ -4,11 +4,14 @@
    (this is the mechanism of WriteToTTML, WriteToWebVTT (regions, STYLE block) and WriteToSSA (Format line,
    Style rows) after the repair); (2) the SubRip writer model is a function of the cue list alone (no map,
    no clock): determinism is immediate; (3) Merge's definition maps do not depend on the iteration order
-   (C12_merge_order_independent).  Purity ("no writer modifies the list") and the byte-level determinism of the
-   WebVTT/SSA/TTML/STL writers are established by the harness (50 repetitions x 5 processes x 6 writer
+   (C12_merge_order_independent); (4) the EBU STL writer ranges over no map and has one hidden input, the clock
+   (Now()), which the model takes as an argument: the bytes depend on it only through the creation and revision date
+   fields of the GSI block (offsets 224..235) and not at all when the metadata supplies both dates.  Purity ("no writer modifies the list") and the byte-level determinism of the
+   WebVTT/SSA/TTML writers (and of the STL writer on the real clock) are established by the harness (50 repetitions x 5 processes x 6 writer
    orders, deep snapshots): that half is correspondence, not proof. *)
 From Coq Require Import List NArith Permutation.
 From Astisub Require Import Kit.Base Kit.GoMap Model.Srt Model.Vtt Proofs.VttIOProofs.
+From Astisub Require Import Model.Stl Proofs.StlClock.
 Import ListNotations.
 
 Theorem C19_sorted_range_independent : forall (V A : Type) (m : list (N * V)) (order order' : list N)
@@ -26,6 +29,21 @@ Proof. intros l l' H. rewrite H. reflexivity. Qed.
 Theorem C19_vtt_deterministic : forall d so so' ro ro',
   Permutation so so' -> Permutation ro ro' -> write_vtt d so ro = write_vtt d so' ro'.
 Proof. exact write_vtt_order_independent. Qed.
+
+(* EBU STL: the clock is the only hidden input *)
+Theorem C19_stl_deterministic : forall now now' md md' items items',
+  now = now' -> md = md' -> items = items' -> write_stl now md items = write_stl now' md' items'.
+Proof. exact write_stl_deterministic. Qed.
+Theorem C19_stl_clock_only_when_dates_absent : forall now now' m c r items,
+  wm_cd m = Some c -> wm_rd m = Some r -> write_stl now (Some m) items = write_stl now' (Some m) items.
+Proof. exact clock_unused_with_dates. Qed.
+Theorem C19_stl_clock_only_in_dates : forall now now' md items out out',
+  write_stl now md items = Ok out -> write_stl now' md items = Ok out' ->
+  firstn 224 out = firstn 224 out' /\ skipn 236 out = skipn 236 out'.
+Proof. exact clock_only_dates. Qed.
+Print Assumptions C19_stl_deterministic.
+Print Assumptions C19_stl_clock_only_when_dates_absent.
+Print Assumptions C19_stl_clock_only_in_dates.
 
 Example C19_example : nsort [3; 1; 2]%N = nsort [2; 3; 1]%N. Proof. reflexivity. Qed.
 
